@@ -88,13 +88,13 @@ def mutants(r, doc, n):
                 if v in ("nan", "inf", "-inf"):
                     new = r.choice([[1.0], {"a": 1.0}, None, "abc"])
                 elif p[-1] in ("name", "values:name", "bins:name", "sub:name"):
-                    new = r.choice([1.0, [1.0], {"a": 1.0}])
+                    new = r.choice([1.0, [1.0], {"a": 1.0}, 0.0, [], {}, False, 0])
                 else:
-                    new = r.choice([1.0, [1.0], {"a": 1.0}, None])
+                    new = r.choice([1.0, [1.0], {"a": 1.0}, None, [], {}, False, 0])
             elif isinstance(v, list):
-                new = r.choice([1.0, "abc", {"a": 1.0}, None])
+                new = r.choice([1.0, "abc", {"a": 1.0}, None, {}, "", 0, False])
             elif isinstance(v, dict):
-                new = r.choice([1.0, "abc", [1.0], None])
+                new = r.choice([1.0, "abc", [1.0], None, [], "", 0, False])
             else:
                 continue
             parent[p[-1]] = new
